@@ -99,6 +99,29 @@ Proof.
     split; [exact X|]. split; [exact C|]. discriminate.
 Qed.
 
+(** ties of the model's steps to the order of the calls in the source
+    (translator -> C10/Gen.v): interpreting [Server::return_listen_sockets] call
+    by call (take the listeners out of the four proxies, build the manifest from
+    borrowed descriptors, send, then let the worker's copies go) is the model's
+    [HReturn] step — a source that closes its copies before sending no longer
+    computes it; and interpreting [Server::shut_down_sessions] call by call
+    (poll, close, count, compare with the floor, take the id, answer) is the
+    model's [shut_down_sessions] for EVERY server state *)
+Theorem return_steps_tie :
+  run_return return_steps (mko true false false) = hand (mko true false false) HReturn.
+Proof. vm_compute. reflexivity. Qed.
+
+Theorem shutdown_steps_tie :
+  forall s, run_shutdown shutdown_steps s = shut_down_sessions s.
+Proof.
+  intros s. unfold run_shutdown, shut_down_sessions, shutdown_steps.
+  destruct (stopping s) as [id|] eqn:S; [|reflexivity].
+  cbn [fold_left sd_step sd_go sd_srv sd_n sd_id sd_ok sd_done negb stopping base sessions accepting answers].
+  destruct (length (filter negb (sessions s)) <=? base s) eqn:E;
+    cbn [fold_left sd_step sd_go sd_srv sd_n sd_id sd_ok sd_done negb stopping base sessions accepting answers];
+    rewrite ?S; reflexivity.
+Qed.
+
 Example manifest_fits_nonvacuous :
   let l := mkl (repeat (repeat 49%N 47) 50) (repeat (repeat 49%N 47) 50) (repeat (repeat 49%N 21) 50) (repeat (repeat 49%N 21) 50) in
   count l = max_fds_out /\ length (encode l) = 7 * 1000 + 202.
